@@ -39,6 +39,10 @@ CONSTANTS
   Scrs,        \* SpecStep: subset of BOOLEAN  (include_screening)
   Dyns,        \* SpecStep: subset of BOOLEAN  (time-dependent applied potential)
   Vs,          \* SpecStep: subset of {"zero", "nonzero", "none"} (terminal_psi class)
+  Forms,       \* SpecStep: how options.terminal_psi was configured: subset of {"keyword", "assign", "replace", "copy",
+               \* "deepcopy", "pickle", "file"}; with "assign" the options object was CONSTRUCTED with value class v0 and
+               \* terminal_psi was assigned afterwards (None -> value, value -> None, value -> other value).  The pin
+               \* semantics must depend on the value the solver reads (v) only.
   Seeds,       \* SpecStep: subset of {"configured", "other"}: the initial state (psi_init, or a seed_solution whose
                \* terminal values are / are not the configured terminal_psi)
   MaxSteps, MaxIter, AMax, IMax,
@@ -55,7 +59,10 @@ CONSTANTS
   MMask,       \* TRUE [code]: refresh rewrites free rows only; FALSE: mutant (design canary)
   MBothHalves, \* TRUE [code]: both the U and the conj(U) entries are rewritten; FALSE: mutant
   MFreshLinks, \* TRUE [code]: link variables recomputed on every call; FALSE: mutant (cached from first refresh)
-  MFixPsi      \* TRUE [code]: rows are pinned only when fix_psi; FALSE: mutant (fix_psi ignored)
+  MFixPsi,     \* TRUE [code]: rows are pinned only when fix_psi; FALSE: mutant (fix_psi ignored)
+  MFixFlag     \* "at_use" [code]: fix_psi = (terminal_psi is not None) is read when the solver is constructed;
+               \* "at_construction": mutant (computed once when the options object is constructed: stale after an
+               \* attribute assignment)
 
 -----------------------------------------------------------------------------
 (* Gaussian integers *)
@@ -154,7 +161,7 @@ IsIdentityRow(m, L, i) == \A j \in SitesOf(m) : L[i, j] = (IF i = j THEN <<m.are
 
 -----------------------------------------------------------------------------
 VARIABLES
-  cfg,       \* [inst, mode, scr, dyn, v, seed]
+  cfg,       \* [inst, mode, scr, dyn, v, seed, form, v0]
   built,     \* psi_gradient is not None
   lap, grad, \* the matrices currently held (scaled, dense)
   freeRows,  \* laplacian_free_rows[: 2 NE] as stored by the first build
@@ -179,7 +186,11 @@ M == InstData[cfg.inst]
 FixedSites == IF cfg.mode = "none" THEN {} ELSE M.term      \* MeshOperators.fixed_sites
 FixPsi == cfg.mode # "disabled"                               \* MeshOperators.fix_psi
 Eff == IF FixPsi THEN FixedSites ELSE {}                      \* the rows that are to be pinned (property)
-BuildFixed == IF MFixPsi THEN Eff ELSE FixedSites             \* the rows the build pins (mechanism)
+\* the fix_psi flag the MeshOperators actually get (mechanism)
+OpsFixPsi == IF ~MFixPsi THEN TRUE
+             ELSE IF MFixFlag = "at_construction" /\ cfg.form = "assign" THEN cfg.v0 # "none"
+             ELSE FixPsi
+BuildFixed == IF OpsFixPsi THEN FixedSites ELSE {}            \* the rows the build pins (mechanism)
 
 (* ---- the cache ---- *)
 Build(q) ==
@@ -195,7 +206,7 @@ Build(q) ==
 Refresh(q) ==
   /\ built
   /\ LET qq == IF MFreshLinks \/ firstQ = <<>> THEN q ELSE firstQ
-         mask == IF (FixPsi \/ ~MFixPsi) /\ MMask THEN freeRows ELSE [k \in 1..2 * NE(M) |-> TRUE]
+         mask == IF OpsFixPsi /\ MMask THEN freeRows ELSE [k \in 1..2 * NE(M) |-> TRUE]
      IN /\ lap' = RefreshLap(M, lap, qq, mask)
         /\ grad' = RefreshGrad(M, grad, qq)
   /\ linkQ' = q
@@ -216,7 +227,9 @@ LapHermitianOnFreeBlock ==      \* sanity of the transcription: area-weighted fr
 
 -----------------------------------------------------------------------------
 (* SpecOps: arbitrary sequences of vector potentials *)
-Cfgs == {c \in [inst : Insts, mode : Modes, scr : Scrs, dyn : Dyns, v : Vs, seed : Seeds] :
+AllVs == {"zero", "nonzero", "none"}
+Cfgs == {c \in [inst : Insts, mode : Modes, scr : Scrs, dyn : Dyns, v : Vs, seed : Seeds, form : Forms, v0 : AllVs] :
+           /\ (c.form # "assign") => c.v0 = c.v
            /\ (c.v = "none") = (c.mode = "disabled")
            /\ (c.mode = "none") => c.v = "zero"}
 
@@ -225,7 +238,8 @@ InitCommon ==
   /\ calls = 0 /\ hist = <<>>
   /\ step = 0 /\ s = 0 /\ curA = 0 /\ prevA = 0 /\ ind = 0 /\ tv = "unset" /\ drifted = FALSE
 
-InitOps == /\ cfg \in [inst : Insts, mode : Modes, scr : {FALSE}, dyn : {FALSE}, v : {"zero"}, seed : {"configured"}]
+InitOps == /\ cfg \in [inst : Insts, mode : Modes, scr : {FALSE}, dyn : {FALSE}, v : {"zero"}, seed : {"configured"},
+                          form : {"keyword"}, v0 : {"zero"}]
            /\ InitCommon /\ pc = "ops"
 
 OpsCall(k) == /\ pc = "ops" /\ calls < MaxCalls
